@@ -342,8 +342,9 @@ func removePattern(str, pat string, fromEnd, shortest bool) string {
 	}
 	switch {
 	case fromEnd && shortest:
-		// use .* to get the right-most shortest match
-		expr = ".*(" + expr + ")$"
+		// use .* to get the right-most shortest match;
+		// it must be able to skip newlines too
+		expr = "(?s).*(" + expr + ")$"
 	case fromEnd:
 		// simple suffix
 		expr = "(" + expr + ")$"
